@@ -265,7 +265,7 @@ class _CompositeApply(Contract):
             if ok:
                 p.prove(r.n == g["n"], f"{q}:C04:one output row per input row {tag}")
                 p.prove(r.at(i) == want_r, f"{q}:C04:fit(x) is forward(x)[0]: periodic, then bounded, then affine on their own columns {tag}")
-            p.prove(g["x"].at(i) == g["x_at"](i), f"{q}:C04:C10:the input array is left unchanged (fitting the preconditioning must not move the population it is fitted to) {tag}")
+            p.prove(g["x"].at(i) == g["x_at"](i), f"{q}:C04:C10:C11:the input array is left unchanged (fitting the preconditioning must not move the population it is fitted to - a resumed run fits it on the restored population) {tag}")
             return
         ok = isinstance(r, Tup) and len(r.items) == 2 and isinstance(r.items[0], Arr) and r.items[0].elem == "row" and isinstance(r.items[1], Arr)
         p.prove(z3.BoolVal(ok), f"{q}:C04:returns (rows, log|det J| per row) {tag}")
